@@ -52,7 +52,10 @@ def make_action(pt, kind: str, name: str):
         return pt.Seq(pt.Log(pt.Bytes(t)), pt.Approve())
     if kind == "sub":
         g = {"pt": pt, "Expr": pt.Expr, "TAG": t}
-        exec(compile("def bare_%s() -> Expr:\n    return pt.Log(pt.Bytes(TAG))\n" % name, "<router-handler>", "exec", dont_inherit=True), g)
+        # the subroutine owns a scratch slot and a MaybeValue temporary (declaration caching / slot numbering matter)
+        src = ("def bare_%s() -> Expr:\n    v = pt.ScratchVar(pt.TealType.uint64)\n    mv = pt.App.globalGetEx(pt.Int(0), pt.Bytes(b'k'))\n"
+               "    return pt.Seq(v.store(pt.Len(pt.Bytes(TAG))), mv, pt.Pop(mv.hasValue()), pt.Pop(v.load()), pt.Log(pt.Bytes(TAG)))\n") % name
+        exec(compile(src, "<router-handler>", "exec", dont_inherit=True), g)
         return pt.Subroutine(pt.TealType.none)(g["bare_%s" % name])
     g = {"pt": pt, "Expr": pt.Expr, "TAG": t}
     exec(compile("def bare_%s() -> Expr:\n    return pt.Log(pt.Bytes(TAG))\n" % name, "<router-handler>", "exec", dont_inherit=True), g)
